@@ -127,6 +127,13 @@ static void run_fault(int si, uint64_t idx) {
       H->violation(std::string(viaC ? "C-wrapper-" : "") + "success-reported-but-file-incomplete:" + cls,
                    vf::fmt("[%s] fault at op %d (%s off=%lld len=%ld): write returned normally, file on disk %s (size %zu of %zu)", SN(si), k, opname(op.kind), op.off, op.len, l == REJECTED ? "is rejected by the reader" : "loads as a DIFFERENT table", n, c.clean.size()));
   }
+  else {   // the failure was reported: whatever file it left behind must still not pass for another table
+    const unsigned char* p; size_t n = vfs_image(&p);
+    if (n > 0) { Load l = (n == c.clean.size() && memcmp(p, c.clean.data(), n) == 0) ? EQUAL : load_mem(*c.t, p, n, true);
+      H->count(l == REJECTED ? "leftovers_rejected" : (l == EQUAL ? "leftovers_equal" : "leftovers_different"));
+      if (l == DIFFERENT) H->violation(std::string("file-left-by-a-reported-failure-loads-as-a-different-table:") + cls, vf::fmt("[%s] fault at op %d (%s off=%lld len=%ld): the write failed and said so, but the file it left behind (%zu of %zu bytes) loads as a table with other knots or coefficients", SN(si), k, opname(op.kind), op.off, op.len, n, c.clean.size())); }
+    else H->count("leftovers_removed");
+  }
   if (H->want_sample()) H->sample(vf::fmt("{\"shape\":\"%s\",\"fault\":\"%s\",\"op_index\":%d,\"op\":\"%s\",\"reported\":%s}", SN(si), FK[fk], k, opname(op.kind), threw ? "true" : "false"));
 }
 
